@@ -1176,7 +1176,12 @@ static void run_history(Ctx &c, int flavour, int kind, int variant, bool by_name
 
   World_ w;
   w.flavour = flavour; w.kind = kind;
-  size_t nobj = 1 + c.weighted({3, 4, 2});
+  // one byte: % 9 = weighted {3,4,2} number of objects; / 9 = 0..28: 0 no pre-step, else a name-less (auto-select) set on
+  // object #0 BEFORE anything was read in this process (fork per case: the type tables the getters fill lazily are untouched)
+  uint8_t ob = c.u8();
+  size_t nobj = 1 + ((ob % 9) < 3 ? 0 : (ob % 9) < 7 ? 1 : 2);
+  unsigned pre = ob / 9;
+  if (pre == 4 || pre == 8) pre = 0;  // keeps two committed corpus inputs (object-count bytes 0x27, 0x4b) exactly as they were
   for (size_t i = 0; i < nobj; i++) {
     // typed cases: the objects get different creation-time state (axis directions x/y/z in turn)
     Obj *o = make_obj(flavour, kind, variant ? (int)((variant - 1 + i) % 3) + 1 : 0, by_name);
@@ -1199,12 +1204,57 @@ static void run_history(Ctx &c, int flavour, int kind, int variant, bool by_name
   c.label(flavour ? "flavour:c++" : "flavour:c");
   c.label(kKind[kind]);
 
+  // ---- pre-step: mpt_*_set(obj, NULL, <typed value>) selects the property by the type of the value; nothing was read yet
+  int pre_ret = 0, pre_form = 0;
+  std::vector<std::pair<std::string, std::string>> pre_expect;  // listed property -> rendering, when the unchanged code accepts
+  bool pre_accept = false;
+  if (pre) {
+    pre_form = 1 + pre % 4;  // 1 colour, 2 line attributes, 3 string, 4 number
+    TypedConv tc;
+    std::string str = "auto" + std::to_string(pre);
+    const char *sp = str.c_str();
+    const char *desc = "";
+    if (pre_form == 1) {
+      uint8_t col[4] = {(uint8_t)(255 - pre), (uint8_t)(pre * 9), (uint8_t)(pre * 5), (uint8_t)pre};  // alpha, red, green, blue
+      tc.type = g_color_id; tc.data.assign(col, col + 4); desc = "colour";
+      const char *prop = kind == KGraph ? "foreground" : kind == KAxis ? 0 : "color";
+      if (prop) { pre_accept = true; pre_expect.push_back({prop, ren_col(col)}); }
+    } else if (pre_form == 2) {
+      uint8_t la[4] = {(uint8_t)(pre % 6), (uint8_t)(pre % 11), (uint8_t)(pre % 9), (uint8_t)(pre % 21)};  // style, width, symbol, size
+      tc.type = g_lattr_id; tc.data.assign(la, la + 4); desc = "line attributes";
+      if (kind == KLine || kind == KWorld) {
+        pre_accept = true;
+        pre_expect = {{"style", ren_int('y', la[0])}, {"width", ren_int('y', la[1])}, {"symbol", ren_int('y', la[2])}, {"size", ren_int('y', la[3])}};
+      }
+    } else if (pre_form == 3) {
+      tc.type = 's'; put(tc.data, sp); desc = "string";
+      const char *prop = kind == KAxis ? "title" : kind == KText ? "value" : kind == KWorld ? "alias" : 0;
+      if (prop) { pre_accept = true; pre_expect.push_back({prop, "s:" + str}); }
+    } else { double d = pre; tc.type = 'd'; put(tc.data, d); desc = "double"; }
+    pre_ret = w.objs[0]->set(0, tc.iface());
+    c.logf("pre-step before any read: set %s#0 (no name) = %s -> returns %d; the unchanged setter %s", kKind[kind], desc, pre_ret, pre_accept ? "selects a property for it" : "has no property of that type");
+    c.label("pre:auto-select");
+    raws[0] = raw_state(kind, w.objs[0]);
+  }
   std::vector<Snapshot> snap(nobj);
   for (size_t i = 0; i < nobj; i++) snap[i] = snapshot(c, kind, w.objs[i]);
-  const Snapshot fresh = snap[0];
+  Snapshot fresh_;
+  if (pre) { Obj *plain = make_obj(flavour, kind); fresh_ = snapshot(c, kind, plain); plain->destroy(); } else fresh_ = snap[0];
+  const Snapshot fresh = fresh_;
+  if (pre) {
+    VP_CHECK(c, (pre_ret >= 0) == pre_accept, "auto-select-model", "name-less set of a %s value on a fresh %s before any read returns %d; the unchanged setter %s", 
+             pre_form == 1 ? "colour" : pre_form == 2 ? "line attribute" : pre_form == 3 ? "string" : "double", kKind[kind], pre_ret, pre_accept ? "accepts it" : "refuses it");
+    for (size_t i = 0; i < fresh.size(); i++) {
+      std::string want = fresh[i].val;
+      if (pre_accept) for (auto &e : pre_expect) if (e.first == fresh[i].name) want = e.second;
+      VP_CHECK(c, snap[0][i].val == want, "auto-select-readback", "after the name-less set (returns %d) %s reads %s, expected %s", pre_ret, fresh[i].name.c_str(),
+               printable(snap[0][i].val, 80).c_str(), printable(want, 80).c_str());
+    }
+    if (pre_accept) c.label("pre:auto-select-accepted");
+  }
   check_listing(c, kind, fresh);
   if (c.verbose()) for (const Prop &p : fresh) c.logf("  lists %-12s type %-4ld default %s", p.name.c_str(), p.type, printable(p.val, 60).c_str());
-  for (size_t i = 1; i < nobj; i++) { std::string d = diff(fresh, snap[i]); VP_CHECK(c, d.empty(), "fresh-objects-differ", "two freshly initialised %s objects differ: %s", kKind[kind], d.c_str()); }
+  for (size_t i = pre ? 1 : 1; i < nobj; i++) { std::string d = diff(fresh, snap[i]); VP_CHECK(c, d.empty(), "fresh-objects-differ", "two freshly initialised %s objects differ: %s", kKind[kind], d.c_str()); }
 
   const KindInfo &ki = kInfo[kind];
   unsigned steps = 0, changed = 0;
@@ -1217,7 +1267,7 @@ static void run_history(Ctx &c, int flavour, int kind, int variant, bool by_name
     std::string what;
     int target_prop = -1;        // index of the addressed listed property (-1: whole object)
     Expect ex;
-    bool is_reset = false, is_copy = false, is_assign = false, assign_logger = false, unknown_name = false;
+    bool is_reset = false, is_copy = false, is_assign = false, assign_logger = false, unknown_name = false, reset_by_empty = false;
     size_t src = 0;
     Value val;
     std::string name;
@@ -1325,8 +1375,22 @@ static void run_history(Ctx &c, int flavour, int kind, int variant, bool by_name
       } else {
         is_reset = true;
         what = "reset " + std::string(kKind[kind]) + "#" + std::to_string(t) + "." + printable(name);
+        if (nb & 0x40) {
+          // the reset form of configuration input: a source whose text is empty ('s' conversion answers 0) handed to
+          // mpt_object_set_property(), which passes it on as mpt_object_set_string(obj, name, NULL)
+          what += " (mpt_object_set_property with an empty text source)";
+          c.logf("step %u: %s", steps, what.c_str());
+          char empty[1] = {0};
+          StringConv sc; sc.txt = empty;
+          mpt::identifier id;
+          id.set_name(name.c_str());
+          ret = mpt::mpt_object_set_property(o->object(), mpt::TraverseChange | mpt::TraverseDefault, &id, sc.iface());
+          reset_by_empty = true;
+          c.label("reset:empty-text-source");
+        } else {
         c.logf("step %u: %s", steps, what.c_str());
         ret = o->set(name.c_str(), 0);
+        }
       }
     } else if (op == 2) {
       is_reset = true;
@@ -1461,6 +1525,9 @@ static void run_history(Ctx &c, int flavour, int kind, int variant, bool by_name
         std::string dflt = fresh[target_prop].val;  // "x"/"y" of text address one coordinate of pos
         if (fk == FTextX) dflt = "pt:" + cur_component(fresh[target_prop].val, 0) + "," + cur_component(snap[t][target_prop].val, 1);
         if (fk == FTextY) dflt = "pt:" + cur_component(snap[t][target_prop].val, 0) + "," + cur_component(fresh[target_prop].val, 1);
+        // modelled: a source without value reaches mpt_color_pset(), whose "no value" colour is black/opaque (its documented
+        // default); graph background has another default (white, alpha 0) which only the NULL-source reset installs
+        if (reset_by_empty && kind == KGraph && fresh[target_prop].name == "background") { uint8_t blk[4] = {255, 0, 0, 0}; dflt = ren_col(blk); c.label("reset:empty-text-graph-bg-black"); }
         VP_CHECK(c, after[t][target_prop].val == dflt, "reset-not-default", "%s (returns %d) leaves %s = %s, a fresh object has %s", what.c_str(), ret,
                  fresh[target_prop].name.c_str(), printable(after[t][target_prop].val, 80).c_str(), printable(dflt, 80).c_str());
         if (snap[t][target_prop].val != fresh[target_prop].val) { c.label("reset:of-changed-property"); ++changed; }
